@@ -37,7 +37,13 @@ def parseResp (j : Json) : Option Resp :=
   some { status := st, mediaType := if jHas j "mt" then some (unhx (jStr j "mt")) else none,
          loc := unhx (jStr j "loc"), body := parseBody (jStr j "body") }
 
-def step (st : Unit) (j : Json) : Unit × List String :=
+structure St where
+  methods : List Bytes := []
+  strict : Bool := false
+
+def step (st : St) (j : Json) : St × List String :=
+  if jStr j "op" == "node" then
+    ({ methods := (jStrs j "methods").map bytesOf, strict := jBool j "strict" }, ["node ok"]) else
   let d : DID := { method := unhx (jStr j "m"), id := unhx (jStr j "id") }
   let s := unhx (jStr j "s")
   let line : String :=
@@ -74,10 +80,22 @@ def step (st : Unit) (j : Json) : Unit × List String :=
         | .ok id => "ok:" ++ hx id
         | r => r.cls
       s!"res reqs=[{String.intercalate "," (reqs.map showReq)}] out={o}"
+    | "resolve" =>
+      let resps := ((jArr j "resps").map parseResp).toArray
+      let srv : Nat → Req → Option Resp := fun hop _ => (resps[hop]?).join
+      let hist := (jStrs j "hist").map (· == "active")
+      let node : Node := { didMethods := st.methods, localState := fun _ => sqlState hist, keyDecodes := fun _ => jBool j "keyok",
+                           nutsState := fun _ => nutsStateOf hist }
+      let (reqs, out) := resolve dec cts factPolicy factLocalFirst st.strict node (jBool j "allow") d srv
+      let o := match out with
+        | .ok r => s!"ok:{hx r.docID}:{r.deactivated}"
+        | .err e => if e.startsWith "d2u:" then "err:d2u" else "err:" ++ e
+        | .panic p => "panic:" ++ p
+      s!"resolve reqs={reqs.length} out={o}"
     | o => "bad-op:" ++ o
   (st, [line])
 
 end Nuts.Drv.C18
 
 def main : IO Unit := do
-  Nuts.Drv.loop (← IO.getStdin) (← IO.getStdout) Nuts.Drv.C18.step ()
+  Nuts.Drv.loop (← IO.getStdin) (← IO.getStdout) Nuts.Drv.C18.step ({} : Nuts.Drv.C18.St)
